@@ -1591,15 +1591,12 @@ class Composite(Parameter):
         self._validate_attribs(val, self.attribs)
 
     def _post_setter(self, obj, val):
-        owner = self.objtype if obj is None else obj
-        # All or nothing: every value is checked against the Parameter it
-        # is destined for before the first one is assigned
-        if isinstance(owner, Parameterized) or (isinstance(owner, type) and issubclass(owner, Parameterized)):
+        if obj is None:
             for a, v in zip(self.attribs, val):
-                if a in owner.param:
-                    owner.param[a]._validate(v)
-        for a, v in zip(self.attribs, val):
-            setattr(owner, a, v)
+                setattr(self.objtype, a, v)
+        else:
+            for a, v in zip(self.attribs, val):
+                setattr(obj, a, v)
 
 #-----------------------------------------------------------------------------
 # Selector
